@@ -9,6 +9,9 @@
 //   ini <ini path> <group|->          gQtLogger.configureFromIniFile(path[, group])
 //   inis <ini path> <group|->         QSettings s(path, IniFormat); gQtLogger.configure(s[, group])
 //   oneline <path|-> <size> <count> <options> <async>      gQtLogger.configure(path, size, count, options, async)
+//   foreign <file>                    qInstallMessageHandler(F): F appends "<d|w|c|i|f> <category hex> <message hex>" per message to <file>
+//   clear                             gQtLogger.clear()   (then a further ini / inis / oneline line re-configures)
+//   restore                           Logger::restorePreviousMessageHandler()
 //   codec <name>                      QTextCodec::setCodecForLocale(codecForName(name)) (e.g. ISO-8859-1)
 //   time <epoch seconds>              virtual wall clock (TZ=UTC)
 //   msg <d|w|c|i> <thread 0..3> <category|-> <text>        qDebug / qCInfo(cat) ... from that thread ("%s")
@@ -58,6 +61,15 @@ struct Worker {
     ~Worker() { { std::lock_guard<std::mutex> l(m); quit = true; } cv.notify_all(); th.join(); }
 };
 
+static std::ofstream g_foreign;
+static void foreignHandler(QtMsgType t, const QMessageLogContext &ctx, const QString &msg)
+{
+    const char *l = t == QtDebugMsg ? "d" : t == QtInfoMsg ? "i" : t == QtWarningMsg ? "w" : t == QtCriticalMsg ? "c" : "f";
+    const QByteArray cat = QByteArray(ctx.category ? ctx.category : "").toHex();
+    const QByteArray m = msg.toUtf8().toHex();
+    g_foreign << l << " " << (cat.isEmpty() ? "-" : cat.constData()) << " " << (m.isEmpty() ? "-" : m.constData()) << "\n";
+    g_foreign.flush();
+}
 static const char *cmode(ColorMode m) { return m == ColorMode::Auto ? "Auto" : m == ColorMode::Always ? "Always" : "Never"; }
 static std::string shape()
 {
@@ -122,7 +134,13 @@ int main(int argc, char **argv)
             std::string p; int size, count, opts, async; is >> p >> size >> count >> opts >> async;
             gQtLogger.configure(QString::fromUtf8(unhex(p)), size, count, RotatingFileSink::Options(opts), async != 0);
             if (!shapeFile.empty()) { std::ofstream o(shapeFile); o << shape() << " " << (gQtLogger.ownThreadIsRunning() ? 1 : 0) << "\n"; }
-        } else if (op == "codec") {
+        } else if (op == "foreign") {
+            std::string f; is >> f;
+            g_foreign.open(f, std::ios::app);
+            qInstallMessageHandler(foreignHandler);
+        } else if (op == "clear") { gQtLogger.clear(); }
+        else if (op == "restore") { Logger::restorePreviousMessageHandler(); }
+        else if (op == "codec") {
             std::string n; is >> n;
             if (auto *c = QTextCodec::codecForName(n.c_str())) QTextCodec::setCodecForLocale(c); else return 3;
         } else if (op == "time") { is >> g_sec; }
